@@ -35,6 +35,15 @@ Proof.
   destruct (negb (exh_matches (exh_of e) (N.of_nat (List.length (en_variants e)) =? 2 ^ en_bits e))); reflexivity.
 Qed.
 
+Lemma enum_accept_region_true e :
+  enum_accept e = true ->
+  enum_cfg_check (existsb v_cfg (en_variants e)) (exh_of e) = true /\
+  enum_count_checks (en_bits e) (N.of_nat (List.length (en_variants e))) (exh_of e) = true.
+Proof.
+  rewrite enum_accept_region. intros H. apply andb_true_iff in H. destruct H as [H _].
+  apply andb_true_iff in H. exact H.
+Qed.
+
 Definition enum_grid : list (N * N * exh_kind) :=
   flat_map (fun b => flat_map (fun c => map (fun k => (b, c, k)) [ExTrue; ExFalse; ExConditional])
                               [0; 1; 2; 3; 4; 5; 7; 8; 9; 255; 256; 257]) [0; 1; 2; 3; 8].
